@@ -60,6 +60,7 @@ type Exec struct {
 	steps   int
 	MaxSteps int
 	curFn   string
+	keepCond *cfront.Node // conditional operator whose alternatives are kept apart (operand of a return)
 }
 
 // LoopInfo records how a loop was handled.
@@ -345,6 +346,14 @@ func (x *Exec) execStmt(n *cfront.Node, in []*State) flow {
 			if n.Kid(0) == nil {
 				out.ret = append(out.ret, retS{st, Val{K: VUnk}, n})
 				continue
+			}
+			// `return c ? A : B` is two returns: the alternatives are not joined
+			top := n.Kid(0)
+			for top != nil && (top.Kind == "ImplicitCastExpr" || top.Kind == "ParenExpr" || top.Kind == "CStyleCastExpr") {
+				top = top.Kid(0)
+			}
+			if top != nil && top.Kind == "ConditionalOperator" {
+				x.keepCond = top
 			}
 			for _, r := range x.eval(n.Kid(0), st) {
 				out.ret = append(out.ret, retS{r.st, r.v, n})
@@ -706,9 +715,22 @@ func (x *Exec) execSwitch(n *cfront.Node, in []*State) flow {
 					s2.addFact(d.Scale(-1))
 					if x.Mode == Paths {
 						s2.PathCond = append(s2.PathCond, fmt.Sprintf("%s == %d", r.v.String(), it.caseVal))
+						l, lc := operandStr(r.v)
+						cv := it.caseVal
+						s2.Atoms = append(s2.Atoms, Atom{Op: "==", L: l, LC: lc, R: strconv.FormatInt(cv, 10), RC: &cv, Holds: true, Node: it.label.Pos()})
 					}
 				} else if !it.isCase {
 					hasDef = true
+					if x.Mode == Paths {
+						// the default label is reached exactly when no case value matches
+						l, lc := operandStr(r.v)
+						for _, o := range items {
+							if o.label != nil && o.isCase {
+								cv := o.caseVal
+								s2.Atoms = append(s2.Atoms, Atom{Op: "==", L: l, LC: lc, R: strconv.FormatInt(cv, 10), RC: &cv, Holds: false, Node: o.label.Pos()})
+							}
+						}
+					}
 				}
 				if !s2.dead {
 					runFrom(i, s2)
